@@ -27,6 +27,8 @@ type History struct {
 	// the retain height the application returns at RetainAt, relative to that height: -1 keeps the previous block,
 	// 0 keeps only the block being committed, +1 lies above the tip (the block store refuses it)
 	RetainDelta int64
+	// configuration variant storage.discard_abci_responses
+	DiscardABCI bool
 	GenTime     time.Time
 	PowerSelf   int64
 	// four-validator mode: the node is validator 0 of 4, the others are played by the harness
@@ -55,6 +57,7 @@ func GenHistory(t *rapid.T) History {
 	h.ParamAt = int64(rapid.IntRange(0, int(h.Heights)).Draw(t, "paramAt"))
 	h.RetainAt = int64(rapid.IntRange(0, int(h.Heights)+1).Draw(t, "retainAt"))
 	h.RetainDelta = rapid.SampledFrom([]int64{-1, -1, -1, -2, 0, 0, 1}).Draw(t, "retainDelta")
+	h.DiscardABCI = rapid.IntRange(0, 3).Draw(t, "discardABCIResponses") == 0
 	h.GenTime = time.Now().Add(-time.Hour).UTC()
 	if rapid.IntRange(0, 3).Draw(t, "initialHeight") == 0 {
 		h.Initial = int64(rapid.IntRange(2, 50).Draw(t, "initial"))
@@ -92,6 +95,7 @@ func (h History) NewNodeHome() (*Persist, error) {
 	if err != nil {
 		return nil, err
 	}
+	p.DiscardABCIResponses = h.DiscardABCI
 	p.TxPlan = func(inc int, height int64) []types.Tx {
 		txs := append([]types.Tx(nil), h.Txs[height-h.initial()+1]...)
 		if h.Salted && inc > 0 {
